@@ -129,6 +129,16 @@ def merge_scalars(ctx):
       g = sts[0].value.args[0]
       ok = len(g.generators) == 1 and norm_text(g.generators[0].iter) == seqs and not g.generators[0].ifs and \
           norm_text(g.elt) == '%s.%s' % (norm_text(g.generators[0].target), f)
+    # positively located: the scalar is copied from ONE input that was selected by comparing another field
+    if len(sts) == 1 and isinstance(sts[0].value, ast.Attribute) and sts[0].value.attr == f and isinstance(sts[0].value.value, ast.Name):
+      sel = sts[0].value.value.id
+      picks = [s for s in U.walk_stmts(fi.node) if isinstance(s, ast.Assign) and len(s.targets) == 1 and norm_text(s.targets[0]) == sel and U.enclosing_loops(fi.node, s)]
+      by = set(a.attr for s in picks for t, _p in U.enclosing_tests(fi.node, s) for a in ast.walk(t) if isinstance(a, ast.Attribute) and a.attr.startswith('total_'))
+      if picks and by and f not in by:
+        ctx.ob('PAIR/merge-scalars', fi, sts[0], False, '%s is copied from the one input %s that was selected by its %s: an input that is not the longest in that respect can still '
+               'have the larger %s (quantized material: a short last note stretched to a whole step, or inputs at different tempi), so a note of the merged sequence ends after it' % (
+                   f, sel, '/'.join(sorted(by)), f), construct='merge_sequences: %s = max over inputs' % f, definite=True)
+        continue
     ctx.ob('PAIR/merge-scalars', fi, sts[0] if sts else loop, ok, '%s of the merged sequence is the maximum over the inputs' % f if ok else
            'after MergeFrom the merged sequence keeps the %s of the last input only: it may not cover the notes of a longer earlier input' % f,
            construct='merge_sequences: %s = max over inputs' % f)
